@@ -31,6 +31,16 @@ def Val.numOf : Val → Option Int
   | .bool b => some (if b then 16 else 0)
   | _ => Option.none
 
+/-- what `Parameter._call_relational_method` makes of the other operand: numbers (and True / False)
+go through `int()` (truncation towards zero), the strings "on" / "off" are 1 / 0; anything else is
+`NotImplemented` -/
+def Val.paramNorm : Val → Option Int
+  | .num n => some (n.tdiv 16)
+  | .bool b => some (if b then 1 else 0)
+  | .str [111, 110] => some 1          -- "on"
+  | .str [111, 102, 102] => some 0     -- "off"
+  | _ => Option.none
+
 /-- `math.isclose(a, b, abs_tol=TOLERANCE)` on sixteenths: `|a-b|/16 ≤ TOLERANCE`, with the
 exact binary value of the constant in the source (`Props/C20.lean: close_iff` ties it to the
 statement's 0.1) -/
@@ -38,10 +48,14 @@ def close (a b : Int) : Bool :=
   decide (Gen.toleranceDen * (a - b).natAbs ≤ 16 * Gen.toleranceNum)
 
 /-- `_significantly_changed(old, new)` (filters.py:66-74).  Two parameters: `new.pending_update
-or old.values != new.values`; two numbers: not close; otherwise `old.__ne__(new)`, which for
-values of different kinds is the (truthy) `NotImplemented` object. -/
+or old.values != new.values`; two numbers: not close; otherwise `old.__ne__(new)`: for an OLD value
+that is a parameter this is `Parameter.__eq__` negated — the parameter's value against the other
+side normalised by `int()` / on-off (so `changed(Parameter(5), 5.9)` is false), truthy
+`NotImplemented` for anything it cannot normalise; for values of different kinds otherwise (also a
+number followed by a parameter: `float.__ne__(Parameter)`) the truthy `NotImplemented` object. -/
 def changed : Val → Val → Bool
   | .param v mn mx _, .param v' mn' mx' p' => p' || !(v == v' && mn == mn' && mx == mx')
+  | .param v _ _ _, y => match y.paramNorm with | some n => v != n | Option.none => true
   | .str a, .str b => a != b
   | .list a, .list b => a != b
   | .none, .none => false
@@ -63,6 +77,13 @@ finding F4); anything else has no difference. -/
 def difference : Val → Val → Diff
   | .list a, .list b => .val (.list (b.filter fun x => !a.contains x))
   | .param .., .param .. => .error
+  -- number / on-off after a parameter: `new - old` is `float.__sub__(Parameter)` = NotImplemented, no `__rsub__`: TypeError;
+  -- other kinds have no `__sub__` at all: no difference
+  | .param .., y => match y with | .num _ | .bool _ => .error | _ => .nothing
+  -- parameter after a number / on-off: `Parameter.__sub__(old)` = value - int(old), a Python int
+  | .num n, .param v _ _ _ => .val (.num ((v - n.tdiv 16) * 16))
+  | .bool b, .param v _ _ _ => .val (.num ((v - (if b then 1 else 0)) * 16))
+  | _, .param .. => .nothing       -- a `str` / list / None old value has no usable `__sub__`
   | x, y =>
     match x.numOf, y.numOf with
     | some a, some b => .val (.num (b - a))
